@@ -359,6 +359,120 @@ fn joint_part(label: &str, s: &str, d: usize, r: usize, st: &mut Stats) {
     st.outcome("joint part: document × r × every n");
 }
 
+
+// ---------------------------------------------------------------------------------------------
+// history part (E-HIST): ONE `apollo_compiler::parser::Parser` value, sequences of parses
+// ---------------------------------------------------------------------------------------------
+
+const H_DOCS: [&str; 6] = [
+    "{ a }",
+    "{ a { a { a { a } } } }",
+    "query Q($v: [[Int]] = [[1]]) { b(x: {y: [1, [2, {z: 3}]]}) }",
+    "scalar S",
+    "",
+    "{ a { a",
+];
+const H_ENTRIES: [&str; 4] = ["parse_ast", "parse_schema", "parse_executable", "parse_mixed_validate"];
+const H_FIELD_SETS: [&str; 2] = ["a", "a { a { a } }"];
+const H_TYPES: [&str; 2] = ["Int", "[[[Int]]]"];
+
+/// (entry point, text)
+fn history_menu() -> Vec<(&'static str, &'static str)> {
+    let mut m = Vec::new();
+    for d in H_DOCS {
+        for e in H_ENTRIES {
+            m.push((e, d));
+        }
+    }
+    for f in H_FIELD_SETS {
+        m.push(("parse_field_set", f));
+    }
+    for t in H_TYPES {
+        m.push(("parse_type", t));
+    }
+    m
+}
+
+/// The parser's own high-water marks for one menu item under recursion limit `r`.
+fn direct_marks(entry: &str, text: &str, r: Option<usize>) -> (usize, usize) {
+    let mut p = Parser::new(text);
+    if let Some(r) = r {
+        p = p.recursion_limit(r);
+    }
+    match entry {
+        "parse_field_set" => {
+            let t = p.parse_selection_set();
+            (t.token_limit().high, t.recursion_limit().high)
+        }
+        "parse_type" => {
+            let t = p.parse_type();
+            (t.token_limit().high, t.recursion_limit().high)
+        }
+        _ => {
+            let t = p.parse();
+            (t.token_limit().high, t.recursion_limit().high)
+        }
+    }
+}
+
+/// One history: the same compiler `Parser` parses menu items `seq` in order; after every call
+/// `tokens_reached()` / `recursion_reached()` must be the marks of that (the last) call.
+fn history_part(seq: &[usize], r: Option<usize>, st: &mut Stats) {
+    let menu = history_menu();
+    let case = json!({"part": "history", "sequence": seq, "recursion_limit": r,
+                      "input": seq.iter().map(|&i| format!("{}({:?})", menu[i].0, menu[i].1)).collect::<Vec<_>>().join("; ")});
+    st.states += 1;
+    let got = vcore::catch(|| {
+        let mut cp = CParser::new();
+        if let Some(r) = r {
+            cp = cp.recursion_limit(r);
+        }
+        let mut seen = Vec::new();
+        for &i in seq {
+            let (entry, text) = menu[i];
+            match entry {
+                "parse_ast" => drop(cp.parse_ast(text, "h.graphql")),
+                "parse_schema" => drop(cp.parse_schema(text, "h.graphql")),
+                "parse_executable" => drop(cp.parse_executable(fixture_schema(), text, "h.graphql")),
+                "parse_mixed_validate" => drop(cp.parse_mixed_validate(text, "h.graphql")),
+                "parse_field_set" => drop(cp.parse_field_set(fixture_schema(), apollo_compiler::name!("Query"), text, "h.graphql")),
+                _ => drop(cp.parse_type(text, "h.graphql")),
+            }
+            seen.push((cp.tokens_reached(), cp.recursion_reached()));
+        }
+        seen
+    });
+    st.transitions += seq.len() as u64;
+    match got {
+        Err(p) => fail(st, "panic", &case, format!("history panicked: {p}")),
+        Ok(seen) => {
+            let mut differs = false;
+            for (k, &i) in seq.iter().enumerate() {
+                let want = direct_marks(menu[i].0, menu[i].1, r);
+                if seen[k] != want {
+                    fail(
+                        st,
+                        "compiler/reached-after-history",
+                        &case,
+                        format!(
+                            "after call {k} ({} on {:?}) tokens_reached/recursion_reached = {}/{}, the parser's marks for that call are {}/{}",
+                            menu[i].0, menu[i].1, seen[k].0, seen[k].1, want.0, want.1
+                        ),
+                    );
+                    differs = true;
+                    break;
+                }
+            }
+            let marks: Vec<_> = seq.iter().map(|&i| direct_marks(menu[i].0, menu[i].1, r)).collect();
+            let shape = if marks.windows(2).any(|w| w[1].0 < w[0].0 || w[1].1 < w[0].1) { "later call has a lower mark" } else { "marks non-decreasing" };
+            if seq.len() > 1 && shape.starts_with("later") {
+                st.nontrivial += 1;
+            }
+            st.outcome(&format!("history part: {} calls, {shape}: {}", seq.len(), if differs { "DIFFERS" } else { "figures are those of the last call" }));
+        }
+    }
+}
+
 fn run_case(case: &Value, st: &mut Stats) {
     let s = case["input"].as_str().unwrap_or("");
     let d = case["depth"].as_u64().unwrap_or(0) as usize;
@@ -379,6 +493,10 @@ fn run_case(case: &Value, st: &mut Stats) {
             case["recursion_limit"].as_u64().unwrap_or(0) as usize,
             st,
         ),
+        Some("history") => {
+            let seq: Vec<usize> = case["sequence"].as_array().map(|a| a.iter().filter_map(|x| x.as_u64().map(|x| x as usize)).collect()).unwrap_or_default();
+            history_part(&seq, case["recursion_limit"].as_u64().map(|r| r as usize), st)
+        }
         Some("joint") => joint_part("replay", s, d, case["recursion_limit"].as_u64().unwrap_or(0) as usize, st),
         _ => vcore::machinery_error("replay case without a part"),
     }
@@ -509,6 +627,25 @@ fn main() {
     println!("joint part: {} documents × r 0..=4 × every n", joint.len());
     chk.absorb(stats);
 
+    // ---- history part: one compiler Parser value, every sequence of <= 2|3 menu calls
+    let hk = history_menu().len() as u64;
+    let hlen = tier.pick(3, 4);
+    let htotal = en::count_upto(hk, hlen);
+    let stats = vcore::par_sweep(htotal, 256, |i, st| {
+        let mut seq = Vec::new();
+        en::nth_upto(hk, i, &mut seq);
+        if seq.is_empty() {
+            return;
+        }
+        for r in [None, Some(2)] {
+            history_part(&seq, r, st);
+        }
+    });
+    println!("history part: {htotal} call sequences of length <= {hlen} over {hk} (entry point, text) items x 2 recursion limits");
+    chk.absorb(stats);
+    bounds.insert("history_part".into(), json!({"menu_items": hk, "max_calls": hlen, "sequences": htotal, "recursion_limits": ["default", 2],
+        "entry_points": ["parse_ast", "parse_schema", "parse_executable", "parse_mixed_validate", "parse_field_set", "parse_type"]}));
+
     let mut depth_hist = std::collections::BTreeMap::new();
     for f in &family {
         *depth_hist.entry(f.2.to_string()).or_insert(0u64) += 1;
@@ -523,7 +660,8 @@ fn main() {
     chk.bounds = Value::Object(bounds);
     chk.rule = "token part: every input × every token limit 0..=K+1 (one state per input); recursion part: every family document × \
                 every recursion limit (one state per document); non-trivial = inputs for which at least one explored limit is below \
-                the unlimited item count, resp. documents of reference depth ≥ 1"
+                the unlimited item count, resp. documents of reference depth ≥ 1; history part: one state per call sequence on one Parser value, \
+                non-trivial = a later call has a lower mark than an earlier one"
         .into();
     chk.assumptions = vec![
         "what counts as a level follows DESIGN A.7 (one per `{` of a selection set, per list *item*, per object field *value*, per `[` of a type; the brace-less field set costs 1): `[]` and `{}` have depth 0".into(),
